@@ -58,6 +58,8 @@ def is_zero(e):
 
 
 def simp(e):
+    if not CTX.simplify:
+        return e  # structure-preserving mode: intermediate terms stay sub-ASTs of later terms (staging by substitution)
     return z3.simplify(e, som=False)
 
 
@@ -90,6 +92,9 @@ class Context:
         self.opaque = {}  # uninterpreted function applications
         self.path_assume = []  # assumptions added during the current path (LU contracts, stubs)
         self.stats = dict(feas_queries=0, feas_time=0.0, merges=0)
+        self.simplify = True
+        self.trace_calls = False
+        self.calls = []  # (facade function name, args) when trace_calls is on
         self.merge = False  # reuse aux variables for terms that are equal modulo a proven lemma
         self.abstract_div = False  # divisions by non-constant terms become definitional aux variables
         self.aux_fp = []  # (kind, fingerprint, var(s), term(s))
@@ -163,6 +168,7 @@ class Controller:
         self.ctx.path_assume = []
         self.ctx.lu_log = []
         self.ctx.defined = []
+        self.ctx.calls = []
 
     def _feasible(self, extra):
         s = z3.Solver()
@@ -178,11 +184,13 @@ class Controller:
         return str(r) != "unsat"  # unknown counts as feasible
 
     def decide(self, cond):
-        cond = z3.simplify(cond)
-        if z3.is_true(cond):
+        sc = z3.simplify(cond)
+        if z3.is_true(sc):
             return True
-        if z3.is_false(cond):
+        if z3.is_false(sc):
             return False
+        if self.ctx.simplify:
+            cond = sc  # else: keep the structure (staging by substitution needs the sub-terms)
         self.decisions += 1
         if self.pos < len(self.plan):
             v = self.plan[self.pos]
@@ -320,7 +328,7 @@ class Sc:
         if isinstance(o, _np.ndarray):
             return s._lift(o, lambda a, b: a + b)
         o = Sc.of(o)
-        return Sc(simp(s.re + o.re), simp(s.im + o.im))
+        return Sc(simp(s.re + o.re), ZERO if (is_zero(s.im) and is_zero(o.im)) else simp(s.im + o.im))
 
     __radd__ = __add__
 
@@ -330,7 +338,7 @@ class Sc:
         if isinstance(o, _np.ndarray):
             return s._lift(o, lambda a, b: a - b)
         o = Sc.of(o)
-        return Sc(simp(s.re - o.re), simp(s.im - o.im))
+        return Sc(simp(s.re - o.re), ZERO if (is_zero(s.im) and is_zero(o.im)) else simp(s.im - o.im))
 
     def __rsub__(s, o):
         if s._defer(o):
@@ -340,7 +348,7 @@ class Sc:
         return Sc.of(o) - s
 
     def __neg__(s):
-        return Sc(simp(-s.re), simp(-s.im))
+        return Sc(simp(-s.re), ZERO if is_zero(s.im) else simp(-s.im))
 
     def __pos__(s):
         return s
@@ -413,7 +421,7 @@ class Sc:
         return opaque_fn("pow", Sc.of(b), s)
 
     def conjugate(s):
-        return Sc(s.re, simp(-s.im))
+        return Sc(s.re, ZERO if is_zero(s.im) else simp(-s.im))
 
     conj = conjugate
 
